@@ -376,12 +376,16 @@ def routine_level(ctx, harness, stats):
 
 # ====================================================================== B. walk level
 def gen_graph(rng):
+    """random directory graph: edges (negative = file), inode numbers, basic/extended inode per directory and file"""
     n = rng.randint(1, 7)
+    nf = rng.randint(0, 3)
     kind = rng.random()
     edges = [[] for _ in range(n)]
     for i in range(n):
         for _ in range(rng.randint(0, 3)):
-            if kind < 0.45:
+            if nf and rng.random() < 0.25:
+                edges[i].append(-rng.randrange(nf) - 1)                     # a regular file (possibly listed several times)
+            elif kind < 0.45:
                 j = rng.randint(i + 1, n) if i + 1 <= n - 1 else None      # tree/DAG: forward edges only
                 if j is not None and j < n:
                     edges[i].append(j)
@@ -389,9 +393,24 @@ def gen_graph(rng):
                 edges[i].append(rng.randrange(n))                           # anything, cycles included
     if rng.random() < 0.5:
         inums = list(range(1, n + 1))
+        finums = list(range(n + 1, n + nf + 1))
     else:
         inums = [rng.randint(1, 3) for _ in range(n)]                        # colliding inode numbers
-    return edges, inums
+        finums = [rng.randint(1, 4) for _ in range(nf)]                      # ... also between files and directories
+    k = rng.random()
+    ext = [k < 0.25 or (k > 0.5 and rng.random() < 0.5) for _ in range(n)]   # all extended / all basic / mixed
+    fext = [rng.random() < 0.5 for _ in range(nf)]
+    return edges, inums, ext, finums, fext
+
+
+def graph_spec(fg, edges, inums, finums):
+    """the `walk` line of the model for a forged graph image (inode references as node names)"""
+    n = len(edges)
+    ref = {i: F.Forge.ref_of(fg.nodes[i].pos) for i in range(n)}
+    fref = {k: F.Forge.ref_of(fg.nodes[n + k].pos) for k in range(len(finums))}
+    parts = ["%d:%d:1:%s" % (ref[i], inums[i], ",".join(str(ref[j]) if j >= 0 else str(fref[-j - 1]) for j in edges[i]) or "-") for i in range(n)]
+    parts += ["%d:%d:0:-" % (fref[k], finums[k]) for k in range(len(finums))]
+    return ";".join(parts)
 
 
 def walk_level(ctx, tools, stats):
@@ -402,13 +421,13 @@ def walk_level(ctx, tools, stats):
     env = ctx.san_env({"ASAN_OPTIONS": ASAN_OPTS})
     specs = []
     for k in range(n):
-        edges, inums = gen_graph(ctx.rng)
-        fg = F.graph_image(edges, inums)
+        edges, inums, ext, finums, fext = gen_graph(ctx.rng)
+        fg = F.graph_image(edges, inums, len(finums), ext, finums, fext)
         img = fg.build()
-        nodes = fg.nodes
-        ref = {i: F.Forge.ref_of(nodes[i].pos) for i in range(len(edges))}
-        spec = ";".join("%d:%d:1:%s" % (ref[i], inums[i], ",".join(str(ref[j]) for j in edges[i]) or "-") for i in range(len(edges)))
-        specs.append((spec, img, edges, inums))
+        spec = graph_spec(fg, edges, inums, finums)
+        stats["walk_ext_dirs"] = stats.get("walk_ext_dirs", 0) + sum(ext)
+        stats["walk_basic_dirs"] = stats.get("walk_basic_dirs", 0) + len(ext) - sum(ext)
+        specs.append((spec, img, edges, [inums, ext, finums, fext]))
     model = ctx.driver(["c05"], "\n".join("walk " + s[0] for s in specs) + "\n")
     for (spec, img, edges, inums), ml in zip(specs, model):
         mm = re.match(r"tree (ok \d+|err \S+|diverges) tar (ok \d+|err \S+|diverges)", ml)
@@ -424,13 +443,25 @@ def walk_level(ctx, tools, stats):
         cnt = len([l for l in r["out"].splitlines() if l.split(" ")[0] in ("dir", "file", "slink", "nod", "pipe", "sock")
                    and l.split(" ")[1:2] not in (["/"], ['"/"'])])
         impl = ("ok %d" % cnt) if r["rc"] == 0 else ("err LINK_LOOP" if "link loop" in r["err"] else "err rc=%s %s" % (r["rc"], r["err"][-80:]))
-        graph = {i: e for i, e in enumerate(edges)}
+        graph = {i: [j for j in e if j >= 0] for i, e in enumerate(edges)}
         big = (F.tree_size(graph, 0) or 0) > 200000
         if impl != mm.group(1) and not big:
             ctx.violation("corr:walk:fill_dir:" + vlib.sha(spec)[:8], "rdsquashfs -d on a forged directory graph: impl=%s model=%s" % (impl, mm.group(1)),
                           {"kind": "image", "image_b64": base64.b64encode(img).decode(), "cmd": ["rdsquashfs", "-d"], "model": ml,
                            "impl_stdout": r["out"][:2000], "impl_stderr": r["err"][:1000], "graph": [edges, inums]},
                           found_input=(r["rc"] in (98, 99, "timeout") or (isinstance(r["rc"], int) and r["rc"] < 0)))
+        # the other users of fill_dir: unpack and sqfsdiff must end by themselves as well (error exit on a loop)
+        for nm, cmd in (("rdsquashfs -u", [str(tools["rdsquashfs"]), "-u", "/", "-p", str(d / "un"), "-q", str(p)]),
+                        ("sqfsdiff", [str(tools["sqfsdiff"]), "-a", str(p), "-b", str(p)])):
+            r2 = run_tool(ctx, cmd, env, 20)
+            shutil.rmtree(d / "un", ignore_errors=True)
+            died = classify_tool_failure(nm, r2, img)[0] != "ok"        # sanitizer report, signal, timeout (benign qsort(NULL,0) excluded)
+            wrong = (mm.group(1) == "err LINK_LOOP" and r2["rc"] == 0)
+            if (died or wrong) and not big:
+                ctx.violation("corr:walk:%s:%s" % (nm.split()[0], vlib.sha(spec)[:8]),
+                              "%s on a forged directory graph: rc=%s, model of fill_dir: %s (%s)" % (nm, r2["rc"], mm.group(1), crash_site(r2["err"])),
+                              {"kind": "image", "image_b64": base64.b64encode(img).decode(), "cmd": [nm.split()[0]] + ([nm.split()[1]] if " " in nm else []),
+                               "model": ml, "stderr": r2["err"][:1500], "graph": [edges, inums]}, found_input=died)
         # sqfs2tar : dir_rec
         cyclic = F.has_cycle(graph, 0)
         if cyclic:
@@ -690,7 +721,11 @@ def tool_level(ctx, tools, api, stats):
         out = []
         try:
             jobs = tool_jobs(tools, api, p, ref, wd / "un", idx)
-            if lab.split(":")[-1].startswith("t2_") or lab.startswith("t2_"):
+            if lab.split(":")[-1].startswith("t4_"):
+                # smallest directory cycles: every recursive tool mode
+                jobs = [j for j in jobs if j[0] in ("rdsquashfs -d", "rdsquashfs -u", "sqfsdiff", "sqfs2tar")]
+                jobs.append(("sqfsdiff self", [str(tools["sqfsdiff"]), "-a", str(p), "-b", str(p)]))
+            elif lab.split(":")[-1].startswith("t2_") or lab.startswith("t2_"):
                 jobs = [j for j in jobs if j[0] in ("rdsquashfs -d", "sqfs2tar")]
             elif lab.startswith("t1_"):
                 jobs = [j for j in jobs if j[0] == "rdsquashfs -d"]
